@@ -191,6 +191,9 @@ impl Xlate<'_> {
     fn serial(&self, real: u32) -> u32 {
         self.maps.s_r2c.get(&real).copied().unwrap_or(real)
     }
+    fn qserial(&self, real: u32) -> u32 {
+        self.maps.q_r2c.get(&real).copied().unwrap_or(real)
+    }
 }
 
 /// Abstraction of the real snapshot. Subscriptions a connection still lists for services that no
@@ -216,7 +219,7 @@ pub fn of_snapshot(s: &VerifSnapshot, x: &Xlate) -> Abs {
         );
     }
     for o in &s.objs {
-        a.objs.insert(o.uuid, (x.ck(&o.cookie), x.conn(o.conn), o.svcs.iter().map(|u| x.ck(u)).collect()));
+        a.objs.insert(x.ck(&o.uuid), (x.ck(&o.cookie), x.conn(o.conn), o.svcs.iter().map(|u| x.ck(u)).collect()));
     }
     let entries: BTreeMap<U, &aldrin_broker::verif::VerifServiceEntry> = s.svc_uuids.iter().map(|e| (e.cookie, e)).collect();
     for sv in &s.svcs {
@@ -224,11 +227,11 @@ pub fn of_snapshot(s: &VerifSnapshot, x: &Xlate) -> Abs {
         a.svcs.insert(
             x.ck(&sv.cookie),
             ASvc {
-                obj_uuid: sv.object_uuid,
+                obj_uuid: x.ck(&sv.object_uuid),
                 obj_cookie: x.ck(&sv.object_cookie),
-                uuid: sv.service_uuid,
+                uuid: x.ck(&sv.service_uuid),
                 version: e.map(|e| e.version).unwrap_or(u32::MAX),
-                type_id: e.and_then(|e| e.type_id),
+                type_id: e.and_then(|e| e.type_id).map(|t| x.ck(&t)),
                 subscribe_all: e.and_then(|e| e.subscribe_all),
                 calls: sv.function_calls.iter().map(|t| x.serial(*t)).collect(),
                 events: sv.events.iter().map(|(ev, cs)| (*ev, cs.iter().map(|c| x.conn(*c)).collect())).collect(),
@@ -238,7 +241,7 @@ pub fn of_snapshot(s: &VerifSnapshot, x: &Xlate) -> Abs {
         );
     }
     for c in &s.function_calls {
-        a.calls.insert(x.serial(c.serial), (c.caller_serial, x.conn(c.caller_conn), c.callee_obj, c.callee_svc, c.aborted));
+        a.calls.insert(x.serial(c.serial), (c.caller_serial, x.conn(c.caller_conn), x.ck(&c.callee_obj), x.ck(&c.callee_svc), c.aborted));
     }
     for ch in &s.channels {
         let conv = |e: VerifChannelEnd| match e {
@@ -254,17 +257,17 @@ pub fn of_snapshot(s: &VerifSnapshot, x: &Xlate) -> Abs {
     if let Some(intro) = &s.introspection {
         for e in intro {
             a.intro.insert(
-                e.type_id,
+                x.ck(&e.type_id),
                 AIntro {
                     registered: e.conn_ids.iter().map(|c| x.conn(*c)).collect(),
                     cached: e.has_introspection,
-                    queried: e.queried.map(|(c, t)| (x.conn(c), x.serial(t))),
+                    queried: e.queried.map(|(c, t)| (x.conn(c), x.qserial(t))),
                     pending: e.pending.iter().map(|(c, t)| (x.conn(*c), *t)).collect(),
                 },
             );
         }
     }
-    a.intro_queries = s.query_introspection.iter().map(|(t, tid)| (x.serial(*t), *tid)).collect();
+    a.intro_queries = s.query_introspection.iter().map(|(t, tid)| (x.qserial(*t), x.ck(tid))).collect();
     a.gauges = s.statistics.map(|g| {
         (g.num_connections, g.num_objects, g.num_services, g.num_channels, g.num_bus_listeners, g.num_introspections.unwrap_or(0))
     });
